@@ -308,6 +308,11 @@ def r3_reward(ctx):
                     total = ("delta", q.lin(ce[2][1], vkey).scale(-1), w)
                 elif n.endswith("add_assign"):
                     total = ("delta", q.lin(ce[2][1], vkey), w)
+                elif n.endswith("mem::replace") and len(ct["args"]) == 2:
+                    # `let old = mem::replace(&mut self.f, v)`: f := v (the call's value, the old f, is read by K3 as the field before the write)
+                    total = ("set", q.lin(body.rec_operand(ct["args"][1], cb, "T"), vkey), w)
+                elif n.endswith("mem::take"):
+                    total = ("set", q.Lin({}, 0), w)
                 else:
                     r.undecided("write/" + fld, "%s passed by &mut to %s" % (fld, n), body.where(cb))
         deltas[fld] = total
